@@ -490,6 +490,14 @@ func c14Hostile(r *rng, j *Journal, cfg *BalCfg) string {
 			iv := pick(r, []string{"daily", "weekly", "monthly", "quarterly"})
 			*j = append(*j, Dir{Kind: 'T', Date: "2020-02-01", Desc: "inverted accrual", Accrual: &Accrual{iv, "2020-06-01", "2020-01-01", as},
 				Bookings: []Booking{{as, ex, "12", "CHF"}}})
+			if r.chance(50) {
+				// the same impossible window once more at the other end of the journal - in another file, when the journal
+				// is spread over an include tree (seeded change C14f-accrual-schedule-cache-keeps-failed-entry remembered
+				// the empty schedule of the first one and divided by its length for the second)
+				*j = append(Journal{Dir{Kind: 'T', Date: "2020-03-01", Desc: "inverted accrual again", Accrual: &Accrual{iv, "2020-06-01", "2020-01-01", as},
+					Bookings: []Booking{{as, ex, "7", "CHF"}}}}, *j...)
+				return "accrual-inverted-twice-" + iv
+			}
 			return "accrual-inverted-" + iv
 		}
 	case 4:
